@@ -26,7 +26,14 @@ pub fn spec_for(seed: u64, index: u64, tier: Tier) -> SysSpec {
         // report a failure on a safe probe
         return c02::probe_spec(index - c02::PROBE_BASE).expect("probe index out of range");
     }
-    sysgen::generate(seed, "C10", index, &gen_cfg(tier))
+    {
+        let mut spec = sysgen::generate(seed, "C10", index, &gen_cfg(tier));
+        // bad states over inputs only, tied to a counter by a constraint
+        if index % 11 == 5 {
+            sysgen::input_bad_state_constraint(&mut spec, index / 11, true);
+        }
+        spec
+    }
 }
 
 #[derive(Clone, Copy, Debug)]
